@@ -23,17 +23,22 @@ OUTSIDE = ["annotations not in the catalogue", "indels (block-level equivalence 
 
 
 def setup_symbolic():
+    import src.gene_info as gene_info_mod
+    from vlib import shims
     readfam.setup_symbolic()
+    # parametric loci: GeneInfo.from_models on symbolic exons (exon/intron sets as association lists)
+    gene_info_mod.set = shims.sym_set
+    shims.install([gene_info_mod], ["min", "max"])
 
 
 def reported(ra):
     return [m.assigned_transcript for m in ra.isoform_matches if m.assigned_transcript]
 
 
-def h_positive(locus, tid, i, j, preset, polya=False):
+def h_positive(locus, tid, i, j, preset, polya=False, parametric=None):
     def fn(g):
         params = readfam.matching_params(preset)
-        gi = build_locus(locus, params.delta)
+        gi = build_locus(locus, params.delta, readfam.parametric_models(g, parametric) if parametric else None)
         exons = gi.all_isoforms_exons[tid]
         d = params.delta
         read = positive_read(g, exons, i, j, d)
@@ -60,12 +65,24 @@ def h_positive(locus, tid, i, j, preset, polya=False):
         if full and len(exons) > 1:
             # full-length: both ends within 10 bp of T's own ends; only an isoform whose intron chain cannot be told
             # apart from T's within delta may be reported in T's place
-            twins = [u for u in gi.all_isoforms_exons if u != tid and readfam.chains_equal_within(exons, gi.all_isoforms_exons[u], d)]
+            twins = [u for u in gi.all_isoforms_exons if u != tid and bool(readfam.chains_equal_within(exons, gi.all_isoforms_exons[u], d))]
             is_fl = AND(read[0][0] <= exons[0][0] + 10, read[-1][1] >= exons[-1][1] - 10)
             def enddist(u):
                 ue = gi.all_isoforms_exons[u]
                 return abs(read[0][0] - ue[0][0]) + abs(read[-1][1] - ue[-1][1])
-            closer_twin = OR([enddist(u) <= enddist(tid) for u in twins if u in rep] or [False])
+            def sitedist(u):
+                ui, ri = introns_of(gi.all_isoforms_exons[u]), introns_of(read)
+                if len(ui) != len(ri):
+                    return 10 ** 6
+                acc = 0
+                for a_, b_ in zip(ui, ri):
+                    acc = acc + abs(a_[0] - b_[0]) + abs(a_[1] - b_[1])
+                return acc
+            # another isoform may take T's place only if the read fits it at least as well: a delta-indistinguishable twin whose
+            # ends are at least as close, or a compatible isoform whose splice sites are at least as close to the read's
+            closer_twin = OR([enddist(u) <= enddist(tid) for u in twins if u in rep] +
+                             [AND(intron_chain_compatible(read, gi.all_isoforms_exons[u], d, tol), sitedist(u) <= sitedist(tid))
+                              for u in rep if u != tid and u not in twins] or [False])
             g.check(IMPLIES(is_fl, OR(tid in rep, closer_twin)), "the followed isoform is reported for a full-length read "
                     "(only a delta-indistinguishable isoform whose ends are at least as close may be reported in its place)", detail=det)
         others = [u for u in gi.all_isoforms_exons if u != tid]
@@ -157,4 +174,14 @@ def instances(tier, seed):
                             continue        # on this locus the edited structure is another isoform's (truncated) structure
                     out.append(Instance("far[%s,%s,%s,%s]" % (locus, models[0][0], kind, preset), h_negative(locus, models[0][0], kind, preset), F,
                                         "locus %s, %s with one edit of symbolic size >= 400 bp" % (locus, models[0][0]), weight=15, budget_s=900))
+    # parametric loci: the second isoform is placed by the solver (thorough: all kinds and sub-chains; quick: one kind, full chain)
+    kinds = ["alt_sites", "alt_ends", "inner_exon_anywhere"]
+    for ki, kind in enumerate(kinds):
+        if q:
+            continue            # the second isoform placed by the solver costs 10^4-10^5 paths per instance: thorough tier only
+        for tid in ("T1", "T2"):
+            for (i, j) in [(0, 2), (0, 1), (1, 2)]:
+                out.append(Instance("follow_parametric[%s,%s,exons %d-%d]" % (kind, tid, i, j), h_positive("parametric", tid, i, j, "default", False, kind), F,
+                                    "two isoforms, the second one placed by the solver (%s); read following %s exons %d..%d" % (kind, tid, i, j),
+                                    weight=400, budget_s=2400))
     return out
